@@ -217,7 +217,7 @@ func runC01(p *core.Prog, r *core.Report, tier string) {
 				if !strings.Contains(f.Name(), "ByIndex") {
 					continue
 				}
-				if f.Parent() == nil && strings.HasPrefix(f.Name(), "accountsForEpoch") {
+				if f.Parent() == nil {
 					checkOwnFilteredResult(p, r, ds, "C01.j", core.RelPkg(f.Pkg.Pkg.Path())+"|"+core.FnKey(f), f)
 				}
 				core.EachInstr(f, func(in ssa.Instruction) {
